@@ -59,6 +59,7 @@ def run(ck):
     ast_agreement(ck)
     consumer_defines(ck)
     includable_twice(ck)
+    one_state_per_program(ck)
 
 
 def text_agreement(ck):
@@ -318,3 +319,115 @@ def includable_twice(ck):
               key="not-inline-var|%s" % gv["name"])
     if not bad:
         ck.ob("C20-O5", "qtlogger.h", True, "%d function definitions and the namespace-scope variables of the single header: all inline, templates, in-class or with internal linkage" % len(root_hdr), key="not-inline|none")
+
+
+def one_state_per_program(ck):
+    """C20-O6: in the library every piece of static state exists once.  In the single header a variable with internal linkage (unnamed
+    namespace, `static`, or a static local of a function with internal linkage) exists once per translation unit, while the inline
+    functions that use it are merged by the linker: one unit's function writes a copy that another unit's function never reads."""
+    from engine.util import write_kind, const_str, skip_copies, walk, describe
+    ho = ck.configs.get("headeronly")
+    ck.rule("C20-O6", "no mutable variable of the single header has internal linkage (one copy per translation unit) unless it is a cache of constants: state that the library keeps once "
+                      "(the active logger, the displaced message handler, the previous message pattern, singletons) is one object per program — an inline variable, or a static local of an inline function with external linkage")
+    cands = [g for g in ho.globals.values() if g["file"].endswith("/qtlogger.h") and not g["file"].endswith("/src/qtlogger/qtlogger.h") and not g.get("const") and not g.get("extern") and not g.get("templated")]
+    total = [g for g in ho.globals.values() if g["file"].endswith("/qtlogger.h") and not g["file"].endswith("/src/qtlogger/qtlogger.h") and not g.get("const")]
+    if len(total) < 5:
+        raise AnalysisBroken("only %d mutable static-storage variables found in qtlogger.h (the logger instance, the handler bookkeeping, the pattern memory were confirmed by hand)" % len(total))
+
+    def constant_expr(fn, e, depth=0, seen=None):
+        """the value depends on nothing but literals and locals that are themselves computed from literals / loop counters"""
+        seen = seen if seen is not None else set()
+        if not isinstance(e, dict):
+            return True
+        if const_str(e) is not None:
+            return True
+        for x in walk(e):
+            k = x.get("k")
+            if k == "this" or (k == "ref" and x.get("dk") in ("param", "field")) or k == "member":
+                return False
+            if k == "lambda":
+                continue
+            if k == "call" and x.get("ck") in ("member", "free") and const_str(x) is None and not (x.get("callee") or "").startswith(("QStaticStringData", "QStringLiteral")):
+                if (x.get("callee") or "").split("::")[-1] not in ("operator()",) and not (x.get("callee") or "").startswith("Q"):
+                    return False
+            if k == "ref" and x.get("dk") == "local" and x.get("decl") not in seen and depth < 3:
+                seen.add(x["decl"])
+                for w in writes_of(fn, x["decl"]):
+                    if not constant_expr(fn, w, depth + 1, seen):
+                        return False
+        return True
+
+    def writes_of(fn, decl):
+        """expressions whose value is stored into `decl` inside fn (initialiser, assignments, element assignments)"""
+        out = []
+        for n in fn.all_nodes():
+            if n.get("k") == "decl":
+                for v in n.get("vars", []):
+                    if v.get("decl") == decl and isinstance(v.get("init"), dict):
+                        out.append(v["init"])
+            if n.get("k") == "binop" and (n.get("op") or "").endswith("=") and n.get("op") not in ("==", "!=", "<=", ">="):
+                l = skip_copies(n.get("lhs"))
+                base = l
+                while isinstance(base, dict) and base.get("k") == "subscript":
+                    base = skip_copies(base.get("base"))
+                if isinstance(base, dict) and base.get("k") == "ref" and base.get("decl") == decl:
+                    out.append(n.get("rhs"))
+            if n.get("k") == "call" and n.get("ck") == "operator" and n.get("op") in ("=", "+=") and n.get("args"):
+                l = skip_copies(n["args"][0])
+                if isinstance(l, dict) and l.get("k") == "ref" and l.get("decl") == decl and len(n["args"]) > 1:
+                    out.append(n["args"][1])
+            if n.get("k") == "call" and n.get("ck") == "member" and n.get("constm") is False:
+                o = skip_copies(n.get("obj")) if isinstance(n.get("obj"), dict) else {}
+                if o.get("k") == "ref" and o.get("decl") == decl:
+                    out += [a for a in n.get("args", [])]
+        return out
+    bad = 0
+    for gv in sorted(cands, key=lambda g: (g["line"], g["name"])):
+        if gv.get("staticlocal"):
+            fns = [ho.fns.get(gv.get("function"))]
+        else:
+            fns = [f for f in ho.fns.values() if f.body is not None]
+        stored = []
+        for f in fns:
+            if f is None or f.body is None:
+                continue
+            stored += [(f, w) for w in writes_of(f, gv["decl"])]
+        state = [(f, w) for f, w in stored if not constant_expr(f, w)]
+        where = "%s:%d (%s)" % (gv["file"].split("/")[-1], gv["line"], gv["name"])
+        t = gv.get("type") or ""
+        if "QtLogger::" in t and not state:
+            # an object of a library class (or a holder of one) is state in itself, whatever is assigned to it
+            bad += 1
+            ck.ob("C20-O6", where, False, "%s (%s) has internal linkage in the single header: every translation unit that includes qtlogger.h has its own object of a library class, where the library has one "
+                  "(handlers added through one are unknown to the other)" % (gv["name"], t[:80]), key="per-unit-state|%s" % gv["name"].split("::")[-1])
+            continue
+        plain = re.fullmatch(r"(?:const |unsigned |signed |volatile )*(?:bool|char|short|int|long|long long|float|double|size_t|quint\d+|qint\d+|uint|uchar|ushort|ulong)(?: ?\*)?(?:\[\d*\])*", t.strip()) or \
+            re.fullmatch(r"(?:const )?(?:QRegularExpression|QString|QByteArray|QLatin1String|QChar|QStringList|QBasicAtomicInteger<int>|QBasicAtomicInt|QAtomicInt|std::atomic<bool>|std::atomic<int>|std::once_flag)", t.strip())
+        if not state and not plain:
+            ck.ob("C20-O6", where, None, "%s has internal linkage in the single header and a type (%s) this rule cannot classify as a cache of constants" % (gv["name"], t[:60]), key="per-unit-state|%s" % gv["name"].split("::")[-1])
+            continue
+        if state:
+            bad += 1
+            f0, w0 = state[0]
+            ck.ob("C20-O6", where, False, "%s has internal linkage in the single header (one copy per translation unit) and holds state written from %s in %s: a program with two source files that include qtlogger.h "
+                  "has two of them, and the inline functions the linker merges read one copy while another was written" % (gv["name"], describe(w0)[:50], f0.name.split("QtLogger::")[-1]), key="per-unit-state|%s" % gv["name"].split("::")[-1])
+        else:
+            ck.ob("C20-O6", where, True, "%s: one copy per translation unit, but only ever given values computed from constants (a cache): every copy holds the same" % gv["name"], key="per-unit-state|%s" % gv["name"].split("::")[-1])
+    ck.ob("C20-O6", "qtlogger.h", not bad, "%d mutable static-storage variables in the single header, %d with internal linkage, none of them carrying state" % (len(total), len(cands)) if not bad else
+          "%d variable(s) carry per-translation-unit state" % bad, key="per-unit-state|summary")
+
+
+def on_analysis_broken(e):
+    """the library units parse, the single header does not: that is the property failing, not the analysis"""
+    d = getattr(e, "diag", None)
+    if not d or d.get("config") != "headeronly" or not d.get("file", "").endswith("/qtlogger.h") or d.get("file", "").endswith("/src/qtlogger/qtlogger.h"):
+        return None
+    from engine.extract import extract
+    try:
+        extract(("lib",))
+    except AnalysisBroken:
+        return None        # the sources themselves do not parse: nothing can be said about the header
+    return {"rule": "C20-O7", "rule_text": "the single header compiles in every build configuration in which the library's sources compile (same optional features defined)",
+            "site": "qtlogger.h:%s" % d.get("line"), "key": "header-does-not-compile",
+            "what": "the library sources compile, but a program that includes qtlogger.h with the same optional features (QTLOGGER_SYSLOG) does not: %s — "
+                    "the generator expands an #include where it first occurs and drops later ones, also when the first one sits inside an #ifdef that is off" % d.get("msg")}
